@@ -10,6 +10,7 @@ package main
 //   random          any use of math/rand, math/rand/v2 or crypto/rand
 //   getenv          os.Getenv / os.LookupEnv / os.Environ
 //   goStmt          a `go` statement
+//   nodeConfig      a read of node-local configuration inside consensus code (telemetry.IsTelemetryEnabled)
 //   syncUse         any use of package sync or sync/atomic inside a function (once-flags, atomics, mutexes: process memory)
 //   pkgVarWrite     assignment to (or through) a package-level variable outside `init`
 //   recvFieldWrite  a method assigning a field of its pointer receiver, or writing through a field (map / slice / pointer
@@ -301,6 +302,8 @@ func nondetExtractor(repo string) (map[string]string, error) {
 									add("random", fn, path+"."+x.Sel.Name, enclosing())
 								case path == "os" && (x.Sel.Name == "Getenv" || x.Sel.Name == "LookupEnv" || x.Sel.Name == "Environ"):
 									add("getenv", fn, "os."+x.Sel.Name, enclosing())
+								case strings.HasSuffix(path, "/telemetry") && x.Sel.Name == "IsTelemetryEnabled":
+									add("nodeConfig", fn, path+"."+x.Sel.Name, enclosing())
 								case path == "sync" || path == "sync/atomic":
 									add("syncUse", fn, path+"."+x.Sel.Name, enclosing())
 								}
